@@ -122,6 +122,19 @@ Theorem slot_epoch_any_schedule :
 Proof. exact @Live.slot_epoch_any_schedule. Qed.
 Print Assumptions slot_epoch_any_schedule.
 
+(** "regardless of ... interleaving with other packets or loss of other packets' frames": a
+    frame leaves every slot other than the one it is routed to exactly as it was; a slot is
+    touched by a frame of another packet only when it is selected for reuse (idle or evicted
+    as the oldest), i.e. reclaimed.  Together with [slot_epoch_any_schedule] this gives the
+    liveness clause at the level of the whole defragmenter. *)
+Theorem other_packets_do_not_disturb :
+  forall (B : Type) (qs : list (queue B)) f qs' r ev i,
+    recv_frame qs f = (qs', r, ev) ->
+    match ev with Some (k, _) => k <> i | None => True end ->
+    nth_error qs' i = nth_error qs i.
+Proof. exact @recv_frame_other_slots. Qed.
+Print Assumptions other_packets_do_not_disturb.
+
 (** non-vacuity: a three-frame packet delivered last-frame-first is emitted, intact *)
 Example reorder_emits :
   let d1 := repeat 1 256 in let d2 := repeat 2 256 in let d3 := repeat 3 10 in
